@@ -155,6 +155,11 @@ impl Hash for NinjaRule<'_> {
         if self.pool.is_some() {
             self.pool.hash(state);
         }
+        // `always` changes the build statements (`| ALWAYS`), so rules differing only in it must
+        // not share a name / object path. only hashed when set, as to not break hashes.
+        if self.always {
+            self.always.hash(state);
+        }
 
         self.rspfile.hash(state);
         self.rspfile_content.hash(state);
